@@ -141,6 +141,28 @@ bool apply_edit(std::string& d, const Step& st, bool& validity_preserving)
     return true;
   }
   if (op == "ma") { const xmlscan::Attr* a = attr(st.arg(0)); if (!a) return false; d.erase(a->nb, a->ve + 1 - a->nb); return true; }
+  if (op == "mz") {
+    // the text of a leaf element that holds a number (<dim>, <band>, <ind>, <count-xy>, <flt>, <x> ... in result and
+    // g3 documents, where numbers are element content, not attributes) is replaced by a hostile literal
+    std::vector<int> leaves;
+    for (size_t t = 0; t + 1 < S.tags.size(); t++) if (S.tags[t].start && !S.tags[t].empty && S.tags[t].match == (int)t + 1) {
+      std::string txt = d.substr(S.tags[t].e, S.tags[t + 1].b - S.tags[t].e); bool digit = false, ok = !txt.empty();
+      for (char c : txt) { if (isdigit((unsigned char)c)) digit = true; else if (!(c == ' ' || c == '.' || c == '-' || c == '+' || c == 'e' || c == 'E' || c == '\n')) ok = false; }
+      if (ok && digit) leaves.push_back((int)t);
+    }
+    if (leaves.empty()) return false;
+    // half of the time one of the STRUCTURAL numbers: sizes, band widths, indexes and counts that dimension storage
+    if (st.arg(0) % 2) {
+      std::vector<int> st_leaves;
+      for (int t : leaves) { const std::string& n = S.tags[t].name; if (n == "dim" || n == "band" || n == "ind" || n == "rows" || n == "cols" || n == "nonz" || n == "blocks" || n == "width" || n == "defect" || n == "int" || n.compare(0, 6, "count-") == 0) st_leaves.push_back(t); }
+      if (!st_leaves.empty()) leaves = st_leaves;
+    }
+    int t = leaves[(size_t)(st.arg(0) / 2) % leaves.size()];
+    // integers first (dimensions, band widths, indexes, counts), then the general hostile list
+    static const char* HI[] = {"0", "-1", "1", "2", "3", "5", "12", "99", "1000", "2147483647", "-2147483648", "4294967296", "x", ""};
+    std::string v = st.arg(1) % 3 ? HI[(st.arg(1) / 3) % 14] : HOSTILE[(st.arg(1) / 3) % NHOSTILE];
+    d.replace(S.tags[t].e, S.tags[t + 1].b - S.tags[t].e, v); return true;
+  }
   if (op == "mx") {
     // a point loses its given coordinates (all, the height only, or the position only): the approximate-coordinates
     // stage has to compute them from the observations - or to find that it cannot
@@ -655,9 +677,9 @@ Plan IoEngine::generate(uint64_t seed, uint64_t index, const std::string& tier)
   } else if (cls < 8) {
     // class (ii): grammar-aware invalid edits and byte-level corruption
     int ne = (int)g.range(1, 3);
-    static const char* M[] = {"me", "md", "mm", "ma", "mn", "mv", "mv", "mt", "flip", "setb", "ins", "delb", "mc", "mk"};
+    static const char* M[] = {"me", "md", "mm", "ma", "mn", "mv", "mv", "mt", "flip", "setb", "ins", "delb", "mc", "mk", "mz", "mz"};
     for (int i = 0; i < ne; i++) {
-      const char* op = M[g.below(14)];
+      const char* op = M[g.below(16)];
       if (op[0] == 'm') step(op, {(long long)g.below(5000), (long long)g.below(5000)});
       else step(op, {(long long)stratified_offset(g, S, D.size()), (long long)g.below(256)});
     }
